@@ -218,9 +218,18 @@ def respelled_sharing(rng):
         if cls in ("AtMost", "AtLeast"): x["v"] = 1
         return x
     S = lambda i: {"c": "str", "id": i}
-    p1 = {"c": rng.choice(["Any", "All"]), "args": [S("p"), occurrence()], "id": "L"}
-    p2 = {"c": rng.choice(["Any", "All", "Imply"]), "args": [S("q"), occurrence()], "id": "R"}
-    if p2["c"] == "Imply": p2 = {"c": "Imply", "cond": occurrence(), "cons": S("q"), "id": "R"}
+    o1, o2 = occurrence(), occurrence()
+    if rng.random() < 0.4:
+        # the first occurrence is left to generate its id; the second one carries that very id explicitly (a model put
+        # together from a freshly built rule and one read back from to_short() / a database)
+        del o1["id"]
+        try:
+            o2["id"] = build(o1).id
+        except Exception:
+            o1["id"] = "X"
+    p1 = {"c": rng.choice(["Any", "All"]), "args": [S("p"), o1], "id": "L"}
+    p2 = {"c": rng.choice(["Any", "All", "Imply"]), "args": [S("q"), o2], "id": "R"}
+    if p2["c"] == "Imply": p2 = {"c": "Imply", "cond": o2, "cons": S("q"), "id": "R"}
     return {"c": rng.choice(["All", "Any"]), "args": [p1, p2], "id": "T"}
 
 
